@@ -49,12 +49,20 @@ Len64(nbytes) ==        \* [8 * nbytes]_64, nbytes < 2^28
 
 \* ---- counter mode
 Inc32(cb) == SubSeq(cb, 1, 12) \o WToBytes(WAdd(WFromBytes(cb, 13), <<0, 1>>))
-RECURSIVE GCtrAcc(_, _, _, _, _)
-GCtrAcc(rk, cb, x, i, acc) ==
+RECURSIVE GCtrAcc(_, _, _, _, _, _)
+GCtrAcc(rk, cb, x, i, last, acc) ==      \* blocks starting at i, up to position last
+  IF i > last THEN <<acc, cb>>
+  ELSE LET n == IF i + 15 <= last THEN 16 ELSE last - i + 1
+       IN GCtrAcc(rk, Inc32(cb), x, i + 16, last, acc \o XorBytes(SubSeq(x, i, i + n - 1), EK(rk, cb)))
+\* two-level accumulation (1024-byte chunks) keeps the evaluation linear in Len(x): the meaning
+\* is simply  x XOR (E(cb) || E(cb+1) || ...)  truncated to Len(x)
+RECURSIVE GCtrChunks(_, _, _, _, _)
+GCtrChunks(rk, cb, x, i, acc) ==
   IF i > Len(x) THEN acc
-  ELSE LET n == IF i + 15 <= Len(x) THEN 16 ELSE Len(x) - i + 1
-       IN GCtrAcc(rk, Inc32(cb), x, i + 16, acc \o XorBytes(SubSeq(x, i, i + n - 1), EK(rk, cb)))
-GCtr(rk, icb, x) == GCtrAcc(rk, icb, x, 1, <<>>)
+  ELSE LET last == IF i + 1023 <= Len(x) THEN i + 1023 ELSE Len(x)
+           r == GCtrAcc(rk, cb, x, i, last, <<>>)
+       IN GCtrChunks(rk, r[2], x, i + 1024, acc \o r[1])
+GCtr(rk, icb, x) == GCtrChunks(rk, icb, x, 1, <<>>)
 
 \* ---- the mode
 HashKey(rk) == EK(rk, Zeros(16))
